@@ -79,9 +79,14 @@ pub fn all() -> Vec<Prop> {
         Prop {
             id: "C03",
             level: "exploration",
-            rule: "one evaluation = one simulated cluster execution with crashes/restarts; oracle A (vote history over all incarnations) and oracle B (write-ahead: durable state covers every message at the instant it is sent); non-trivial = at least one restart of a correct node that had voted, distinct = distinct event-log fingerprint",
-            batches: |t| bft_batches(&[("faultfree", 16), ("crashy", 200)], &[("faultfree", 100), ("crashy", 6000)], t),
-            expected_probes: || vec![],
+            rule: "one evaluation = one simulated cluster execution with crashes/restarts; oracle A (vote history over all incarnations) and oracle B (write-ahead: durable state covers every message at the instant it is sent); non-trivial = at least one restart of a correct node that had voted, distinct = distinct event-log fingerprint. Population crashenum (fault enumeration): consecutive evaluations are the crash points of one base run (committee of 2-4, about ten views, network faults, late duplicates, Byzantine validators where the weights allow): correct node j dies inside its k-th durable write, write applied or lost, for every j, every k up to 40 and both outcomes, is restarted from its durable state and is shown old messages again; runs are deterministic, so the execution up to the crash is the base run's; non-trivial = the crash fired (points beyond a node's last write or for an absent node do not exist); probe crashenum_base_has_more_writes_than_enumerated counts evaluations of bases not covered exhaustively",
+            batches: |t| {
+                let mut b = bft_batches(&[("faultfree", 16), ("crashy", 200)], &[("faultfree", 100), ("crashy", 6000)], t);
+                // Crash enumeration: every durable write of every correct node of a base run, both outcomes.
+                b.push(Batch { engine: "bft", mode: "crashenum", runs: CRASHENUM_POINTS * if t == "thorough" { 150 } else { 3 } });
+                b
+            },
+            expected_probes: || vec!["crashenum_point_fired"],
             components: bft_components,
             assumptions: bft_assumptions,
         },
@@ -310,7 +315,14 @@ fn bft_profile(mode: &str) -> bft::Profile {
     }
 }
 
+/// Crash enumeration (C03): points per base run = 4 nodes x 2 outcomes x `CRASHENUM_K` writes.
+pub const CRASHENUM_K: u64 = 40;
+pub const CRASHENUM_POINTS: u64 = 8 * CRASHENUM_K;
+
 fn bft_case(mode: &str, seed: u64) -> (bft::Cfg, Vec<bft::Action>, bft::RunOpts) {
+    if mode == "crashenum" {
+        return crashenum_case(seed);
+    }
     let mut cfg = bft::gen_cfg(seed, bft_profile(mode));
     if mode == "byzheavy" {
         // Every run has Byzantine validators when the weights allow it, and they talk a lot.
@@ -471,10 +483,76 @@ fn bft_case(mode: &str, seed: u64) -> (bft::Cfg, Vec<bft::Action>, bft::RunOpts)
     (cfg, plan, opts)
 }
 
+/// C03 crash enumeration.  `seed = base << 16 | point`: the base run (committee of 2-4, about
+/// ten views, network faults, late duplicates, Byzantine validators where the weights allow,
+/// *no* crash of its own) is a function of `base` alone; `point` names the one crash that is
+/// added: the `point % 4`-th correct node dies inside its durable write number `point / 8 + 1`, with the write
+/// applied (`point / 4 % 2 == 1`) or lost.  The node is restarted a few actions later, and old
+/// messages are delivered again afterwards.  Since runs are deterministic the execution up to
+/// the crash is the base run's: the points of one base are "a crash at every durable write of
+/// that history, both outcomes".  Point `CRASHENUM_POINTS - 1` ... beyond the node's last write
+/// never fire (run = base run).
+fn crashenum_case(seed: u64) -> (bft::Cfg, Vec<bft::Action>, bft::RunOpts) {
+    let base = seed >> 16;
+    let point = seed & 0xffff;
+    let mut cfg = bft::gen_cfg(base, bft::Profile::Small);
+    let mut rng = crate::kit::stream(base, "crashenum");
+    if cfg.weights.len() < 2 {
+        cfg.weights = vec![1, 1, rand::Rng::gen_range(&mut rng, 1..3)];
+        cfg.leaders = vec![true; 3];
+        cfg.byz = vec![false; 3];
+    }
+    cfg.seed = base;
+    cfg.faults.crash = 0;
+    cfg.faults.crash_in_write = 0;
+    cfg.faults.disk_error = 0;
+    cfg.faults.partition = 0;
+    cfg.faults.drop = cfg.faults.drop.min(3);
+    cfg.n_actions = rand::Rng::gen_range(&mut rng, 90..170);
+    let n = cfg.weights.len() as u32;
+    let mut plan = bft::gen_plan(&cfg);
+    // The point's node: the (point % 4)-th *correct* validator.
+    let correct: Vec<u32> = (0..n).filter(|i| !cfg.byz[*i as usize]).collect();
+    let node = correct.get((point % 4) as usize).copied().unwrap_or(n);
+    let applied = point / 4 % 2 == 1;
+    let k = point / 8 + 1;
+    if node < n {
+        cfg.arm = Some((node, k, applied));
+        // Restart soon after the crash wherever it lands (restarting a live node is a no-op),
+        // then late duplicates of old messages for the restarted node and the others.
+        let mut at = rand::Rng::gen_range(&mut rng, 3..12usize);
+        while at < plan.len() {
+            plan.insert(at, bft::Action::Restart { node });
+            plan.insert(at + 1, bft::Action::Run { steps: 0 });
+            for j in 0..rand::Rng::gen_range(&mut rng, 1..4usize) {
+                let to = if rand::Rng::gen_bool(&mut rng, 0.7) { node } else { rand::Rng::gen_range(&mut rng, 0..n) };
+                plan.insert(at + 2 + 2 * j, bft::Action::Replay { k: rand::Rng::gen(&mut rng), to });
+                plan.insert(at + 3 + 2 * j, bft::Action::Run { steps: 0 });
+            }
+            at += rand::Rng::gen_range(&mut rng, 14..40usize);
+        }
+    } else {
+        // No such node in this committee: the point does not exist.
+        plan.clear();
+    }
+    (cfg, plan, bft::RunOpts::default())
+}
+
 fn bft_result(mode: &str, cfg: &bft::Cfg, out: &bft::RunOutcome) -> CaseResult {
     let s = &out.stats;
     let faults_fired: u64 = s.faults.values().sum();
-    let nontrivial = s.blocks_committed > 0 && (mode == "faultfree" || faults_fired > 0);
+    let mut nontrivial = s.blocks_committed > 0 && (mode == "faultfree" || faults_fired > 0);
+    let mut probes = s.probes.clone();
+    if mode == "crashenum" {
+        // A point counts if its crash fired; a base run is covered exhaustively if no node made
+        // more than CRASHENUM_K durable writes.
+        let fired = s.faults.keys().any(|k| k.starts_with("crash_in_write"));
+        nontrivial = fired;
+        *probes.entry(if fired { "crashenum_point_fired" } else { "crashenum_point_beyond_last_write_or_absent_node" }.to_string()).or_default() += 1;
+        if s.writes.iter().any(|w| *w > CRASHENUM_K) {
+            *probes.entry("crashenum_base_has_more_writes_than_enumerated".to_string()).or_default() += 1;
+        }
+    }
     CaseResult {
         seed: cfg.seed,
         mode: mode.to_string(),
@@ -485,7 +563,7 @@ fn bft_result(mode: &str, cfg: &bft::Cfg, out: &bft::RunOutcome) -> CaseResult {
         sim_ms: s.sim_ms,
         nontrivial,
         faults: s.faults.clone(),
-        probes: s.probes.clone(),
+        probes,
         abstract_states: s.abstract_states.clone(),
         violations: out.violations.clone(),
         panics: s.panics.clone(),
@@ -496,6 +574,7 @@ fn bft_result(mode: &str, cfg: &bft::Cfg, out: &bft::RunOutcome) -> CaseResult {
             "policy": cfg.policy, "persist_now": cfg.persist_now, "actions": cfg.n_actions,
             "blocks_committed": s.blocks_committed, "min_height": s.min_height, "max_height": s.max_height,
             "max_view": s.max_view, "delivered": s.delivered, "tasks_spawned": s.spawned,
+            "twins": cfg.twins, "armed_crash": cfg.arm, "durable_writes": s.writes,
         }),
         replay: None,
         draws: Default::default(),
